@@ -149,6 +149,11 @@ func genCase(r *hx.Rand) (cfgT, reqT) {
 			q.Remote = peer + ":" + strconv.Itoa(r.Range(1, 65535))
 		}
 	}
+	if r.Chance(1, 10) { // odd RemoteAddr forms: every branch of net.SplitHostPort
+		q.Remote = hx.Pick(r, []string{"[::1]", "[::1]:", "::1:80", "a:b:c", "[a]b:1", "[[::1]]:1", "[::1]]:1", "host:1:2",
+			":80", ":", "[]:1", "[x]:y]", "[10.0.0.1]:80", "10.0.0.1:", "[fd00::1%eth0]:1", "10.0.0.1:80:", "[::1]:80:90",
+			"[::1", "::1]:80", "@", "unix", "/var/run/app.sock", "10.0.0.1 :80", " 10.0.0.1:80", "[" + peer + "]", peer + ":", "[" + peer})
+	}
 	q.Hdr = map[string]string{}
 	for _, h := range hdrNames {
 		if r.Chance(1, 3) {
@@ -270,7 +275,7 @@ func emitObs(id string, k caseT, res string, ok bool, st *hx.Stats) string {
 		mh = 1
 	}
 	peer := peerOf(q.Remote)
-	l := hx.NewLine(id).Nat(mh).Str(peer).Bool(c.trusted(peer)).Nat(len(headers))
+	l := hx.NewLine(id).Nat(mh).Str(q.Remote).Nat(len(headers))
 	nontrivial := false
 	// the `net` table: every candidate item of every configured header, classified for real
 	tbl := map[string]bool{}
@@ -310,10 +315,12 @@ func emitObs(id string, k caseT, res string, ok bool, st *hx.Stats) string {
 			}
 		}
 	}
+	add(peer) // isTrusted(peer): net.ParseIP on the string as it is
 	l.Nat(len(order))
 	for _, item := range order {
 		l.Str(item)
-		if ip, ok := parseOne(item); ok {
+		if p := net.ParseIP(item); p != nil { // keys are trimmed items or the peer as it is: no trimming here
+			ip := p.String()
 			l.Bool(true).Str(ip).Bool(c.trusted(ip))
 		} else {
 			l.Bool(false)
